@@ -26,6 +26,7 @@ type entryResult struct {
 	Dropped      int                   `json:"dropped"`
 	Forks        int                   `json:"forks"`
 	Queries      int                   `json:"queries"`
+	PreDecided   int64                 `json:"queries_decided_by_byte_domain_presolver"`
 	Sat          int                   `json:"sat"`
 	Unsat        int                   `json:"unsat"`
 	Unknown      int                   `json:"unknown"`
@@ -60,7 +61,7 @@ type output struct {
 	GoVer   string        `json:"go_version"`
 }
 
-var directiveRe = regexp.MustCompile(`(?m)^//verif:(stub|summarize)\s+(\S+)(?:\s+(\S+))?\s*$`)
+var directiveRe = regexp.MustCompile(`(?m)^//verif:(stub|summarize|setarg)\s+(\S+)(?:\s+(\S+))?(?:\s+(\S+))?\s*$`)
 
 func main() {
 	dir := flag.String("dir", "/repo", "module directory")
@@ -78,6 +79,8 @@ func main() {
 	trace := flag.Bool("trace", false, "trace calls")
 	replay := flag.String("replay", "", "engine-concrete replay of a counterexample file")
 	known := flag.String("known", "", "known findings file")
+	noPre := flag.Bool("nopresolve", false, "send every query to the SMT solver")
+	paramStr := flag.String("params", "", "harness parameters name=int,...")
 	repoPrefix := flag.String("repoprefix", "cuelang.org/go", "import path prefix of the code under test")
 	flag.Parse()
 
@@ -130,6 +133,7 @@ func main() {
 	redirects := map[string]*ssa.Function{}
 	summarize := map[string]bool{}
 	var stubs, sums []string
+	var setargs []setArg
 	for _, src := range harnessSrc {
 		for _, m := range directiveRe.FindAllStringSubmatch(src, -1) {
 			switch m[1] {
@@ -143,6 +147,12 @@ func main() {
 			case "summarize":
 				summarize[m[2]] = true
 				sums = append(sums, m[2])
+			case "setarg":
+				var idx, val int
+				fmt.Sscan(m[3], &idx)
+				fmt.Sscan(m[4], &val)
+				setargs = append(setargs, setArg{prefix: strings.TrimSuffix(m[2], "*"), idx: idx, val: val})
+				stubs = append(stubs, fmt.Sprintf("%s: argument %d forced to %d", m[2], idx, val))
 			}
 		}
 	}
@@ -182,6 +192,20 @@ func main() {
 		}
 	}
 
+	params := map[string]int{}
+	if *paramStr != "" {
+		for _, kv := range strings.Split(*paramStr, ",") {
+			p := strings.SplitN(kv, "=", 2)
+			if len(p) == 2 {
+				var v int
+				fmt.Sscan(p[1], &v)
+				params[p[0]] = v
+			}
+		}
+	}
+	if replayIn != nil && replayIn.Params != nil {
+		params = replayIn.Params
+	}
 	exit := 0
 	for _, en := range strings.Split(*entries, ",") {
 		en = strings.TrimSpace(en)
@@ -199,7 +223,7 @@ func main() {
 			repoPrefix: *repoPrefix, knownExcl: knownRegions,
 			unsupp: map[string]int{}, obligations: map[string]*oblStat{}, reach: map[string]int{},
 			reachModel: map[string][]inputRec{}, funcs: map[string]string{}, initFailed: map[string]string{},
-			sumFail: map[string]int{}, ufs: map[string]bool{}, replay: replayIn,
+			sumFail: map[string]int{}, ufs: map[string]bool{}, replay: replayIn, params: params, setargs: setargs, noPresolve: *noPre,
 		}
 		nw := *workers
 		if replayIn != nil {
@@ -211,7 +235,7 @@ func main() {
 		}
 		er := entryResult{
 			Entry: en, Paths: ex.paths, Completed: ex.completed, Dropped: ex.dropped, Forks: ex.forks,
-			Queries: ex.stats.queries, Sat: ex.stats.sat, Unsat: ex.stats.unsat, Unknown: ex.stats.unknown,
+			Queries: ex.stats.queries, PreDecided: ex.preDecided.Load(), Sat: ex.stats.sat, Unsat: ex.stats.unsat, Unknown: ex.stats.unknown,
 			SolverErrors: ex.stats.errors, SolverTimeS: ex.stats.time.Seconds(), WallS: time.Since(t1).Seconds(),
 			Obligations: ex.obligations, Reach: ex.reach, ReachModels: ex.reachModel, Violations: ex.violations,
 			Unsupported: ex.unsupp, FuelOut: ex.fuelOut, Inconclusive: ex.inconcl, Functions: ex.funcs,
